@@ -88,7 +88,14 @@ func archiveLayout(file []byte, sortedIdx []int) layout {
 	nSpans := int(binary.BigEndian.Uint32(f[8:]))
 	m := int(binary.BigEndian.Uint32(f[12:]))
 	metaLen := int(binary.BigEndian.Uint32(f[16:]))
-	dataLen := len(file) - arcFooter - metaLen - indexLen
+	ftr := arcFooter
+	if file[len(file)-8] < 3 {
+		// format versions 1 and 2: 216-byte footer with a uint32 index length (the reader loads 220
+		// bytes and ignores the first 4, which belong to the index)
+		ftr = arcFooter - 4
+		indexLen = int(binary.BigEndian.Uint32(f[4:]))
+	}
+	dataLen := len(file) - ftr - metaLen - indexLen
 	off := l.add(0, dataLen, "data", -1)
 	off = l.add(off, 8*nSpans, "idx.span", -1)
 	for i := 0; i < m; i++ {
@@ -102,7 +109,7 @@ func archiveLayout(file []byte, sortedIdx []int) layout {
 		off = l.add(off, 12, "idx.suffix", sortedIdx[i])
 	}
 	off = l.add(off, metaLen, "meta", -1)
-	off = l.add(off, 8, "ftr.indexlen", -1)
+	off = l.add(off, 8-(arcFooter-ftr), "ftr.indexlen", -1)
 	off = l.add(off, 4, "ftr.spancount", -1)
 	off = l.add(off, 4, "ftr.chunkcount", -1)
 	off = l.add(off, 4, "ftr.metalen", -1)
